@@ -312,9 +312,11 @@ pub fn r_item(it: &Result<ProguardRecord, proguard::ParseError>) -> String {
         Err(e) => {
             // kind(), Display and source() of the error must be consistent with each other
             use std::error::Error as _;
+            // …and every error that leaves `parse_proguard_record` carries the one generic kind
+            // (sub-parser kinds, incl. `Utf8Error`, are replaced there): modelled as "no kind".
             let consistent = match e.kind() {
-                proguard::ParseErrorKind::Utf8Error(u) => e.to_string() == u.to_string() && e.source().is_some(),
-                proguard::ParseErrorKind::ParseError(d) => e.to_string() == d && e.source().is_none(),
+                proguard::ParseErrorKind::Utf8Error(_) => false,
+                proguard::ParseErrorKind::ParseError(d) => d == "line is not a valid proguard record" && e.to_string() == d && e.source().is_none(),
             };
             if !consistent {
                 return "E-KIND-INCONSISTENT".to_string();
